@@ -1823,8 +1823,20 @@ Slices:
                 ret = append(ret, '\\')
                 continue Slices
             case 'x':
-                var bt, _ = hex.DecodeString(string(slice[2:]))
+                // \xHH is one byte: the scanner hands us up to four hex digits in
+                // this slice, anything after the first two is literal text.
+                if len(slice) < 4 {
+                    diags = append(diags, &hcl.Diagnostic{
+                        Severity: hcl.DiagError,
+                        Summary:  "Invalid escape sequence",
+                        Detail:   "The \\x escape sequence must be followed by two hexadecimal digits.",
+                        Subject:  rng.Ptr(),
+                    })
+                    break TokenType
+                }
+                var bt, _ = hex.DecodeString(string(slice[2:4]))
                 ret = append(ret, bt...)
+                ret = append(ret, slice[4:]...)
                 continue Slices
             case 'u', 'U':
                 if slice[1] == 'u' && len(slice) != 6 {
